@@ -1,6 +1,6 @@
 CONSTANTS MaxView = 1 ByzBudget = 3 Blocks <- cBlocks Hdr <- cHdr Dev = {}
 INIT Init
 NEXT Next
+INVARIANTS Agreement ExternalValidity NoRejectedCommitted NoEquivocation
 VIEW View
-INVARIANT NeverCommitInHigherView
 CHECK_DEADLOCK FALSE
